@@ -58,7 +58,9 @@ def exc_str(e):
     if isinstance(e, RecursionError):
         return "err RecursionError"
     if isinstance(e, (UserExc, UserBaseExc, UserRuntimeError)) or isinstance(getattr(e, "tag", None), int):
-        return "err User%d" % e.tag
+        tag = getattr(e, "tag", None)
+        # (an exception the code under test re-created may carry anything as its tag)
+        return "err User%d" % tag if isinstance(tag, int) and not isinstance(tag, bool) else "err User?(%s)" % type(e).__name__
     return "err " + C.exc_name(e)
 
 
